@@ -114,7 +114,10 @@ def rank_case(draw, tier):
                          st.just(float("nan")))) if draw(st.integers(0, 9))
           == 0 else float(draw(st.integers(-2, 2))) for _ in range(nd)]
          for _ in range(npt)]
-    return {"x": x, "kind": kind, "P": P, "nd": nd,
+    # margins between coordinates: 1, 1e-11, 1e-300 or one ulp
+    pscale = draw(st.sampled_from(["unit", "unit", "1e-11", "1e-300", "ulp",
+                                   "1e-12*"]))
+    return {"x": x, "kind": kind, "P": P, "nd": nd, "pscale": pscale,
             "cst": draw(st.sampled_from([0., 0.3, 0.5])),
             "layout": draw(st.sampled_from(["C", "F", "strided"]))}
 
@@ -143,6 +146,17 @@ def rank_oracle(case):
     # pareto
     nd = case["nd"]
     P = np.array(case["P"], dtype=np.float64).reshape(len(case["P"]), nd)
+    ps = case.get("pscale", "unit")
+    if ps == "1e-11":
+        P = 1.0 + P * 1e-11
+    elif ps == "1e-300":
+        P = P * 1e-300
+    elif ps == "1e-12*":
+        P = P * 1e-12
+    elif ps == "ulp":
+        P = 1.0 + P * float(np.spacing(1.0))
+    if ps != "unit":
+        labels.append(f"pareto:margin-{ps}")
     npt = len(P)
     hasnan = bool(np.isnan(P).any())
     if case["layout"] == "F":
